@@ -66,6 +66,11 @@ func (s *signer) Unmarshal(bytes []byte) error {
 	}
 
 	walletPublicKey := unmarshalPublicKey(pbSigner.Wallet.PublicKey)
+	if walletPublicKey.X == nil || walletPublicKey.Y == nil {
+		return fmt.Errorf(
+			"cannot unmarshal signer: invalid wallet public key",
+		)
+	}
 
 	walletSigningGroupOperators := make(
 		[]chain.Address,
